@@ -17,7 +17,7 @@ META = {
         "instance needs compiling and running generated code and is not decided."),
     "assumptions": ["Rust Reference keyword list (2018/2021 editions) as transcribed in rules/c17.py"],
     "trusted_base": ["syn 2 parser", "lib/absint.py"],
-    "technique": "static analysis: table-vs-oracle, abstract interpretation of the variant lowering, who-groups-by-what rule, purity census",
+    "technique": "static analysis: table-vs-oracle (keywords, prelude-to-Rust type map), abstract interpretation of the variant lowering, who-groups-by-what rule, purity census",
 }
 
 F = "cddl-derive/src/codegen.rs"
